@@ -8,6 +8,8 @@ NOT_YET = {}
 _TB = ("Trusted: Lean kernel + propext/Classical.choice/Quot.sound; hand-written models (checked against the code by the "
        "correspondence engine on every run, not assumed); generators and canonicalisers. ")
 ENGINES = [
+    {"name": "body", "path": "go/cmd/corr/body.go", "serves_properties": ["C10"],
+     "kind_free_text": "differential: real transaction body writes/reads at limit thresholds vs Lean model"},
     {"name": "tf", "path": "go/cmd/corr/tf.go", "serves_properties": ["C14"],
      "kind_free_text": "differential: Go transformation functions vs Lean models + monitor (flag soundness, purity, aliasing)"},
     {"name": "tfchain", "path": "go/cmd/corr/tfchain.go", "serves_properties": ["C14"],
@@ -16,6 +18,15 @@ ENGINES = [
      "kind_free_text": "differential: Go operator factories/Evaluate vs Lean models (= documented predicates)"},
 ]
 CLAIMED = {
+    "C10": dict(
+        text="Lean 4 theorems over an executable model of BodyBuffer and the four body entry points, for every byte string, "
+             "every chunking, every mix of entry points and every (limit, memLimit, action): representation invariant "
+             "(length = |content| <= limit), stored content = old content ++ accepted part of each write, independence of "
+             "the stored bytes from the in-memory limit (memory vs. disk), ProcessPartial stores exactly take(limit) of the "
+             "supplied bytes, Reject refuses all-or-nothing exactly when the cumulative size reaches the limit, the body "
+             "phase runs at most once, readers return exactly the content; tied to /repo by the `body` correspondence.",
+        note=_TB + "File operations are infallible in this model (faults are C20); io.CopyN and bytes.Buffer are assumed.",
+        ref="6/C10", engine="body"),
     "C14": dict(
         text="Lean 4 theorems over executable models of the transformation functions (change-report soundness per "
              "transformation, encode/decode identities, idempotence, multiMatch completeness and soundness for arbitrary "
